@@ -20,7 +20,6 @@ import numpy as np
 
 from common import all_pre_build as pre_build  # noqa: E402,F401  (regenerates Generated/{Wiring,Setup,...}.lean from the tested tree)
 import orchx  # noqa: E402  (extended alphabet: re-add, set_run_params, mpe_from_plot - Model/OrchX.lean)
-from common import wiring_pre_build as pre_build  # noqa: E402,F401  (regenerates Generated/Wiring.lean from the tested tree)
 
 LEAN_MODULES = ["PyomaVerif.Props.C15", "PyomaVerif.Mutants.C15", "PyomaVerif.Props.WiringGuard", "PyomaVerif.Props.WiringSetup"]
 THEOREMS = [
